@@ -4,6 +4,7 @@
    hooks.  [reachable step init s] quantifies over ALL schedules (sequences of
    thread choices) of any length; page size, item list and number of Consume
    calls are arbitrary. *)
+From Coq Require Import Lia.
 From PP Require Import Gen.Src_queues Queues.UsqDefs Queues.UsqProofs Queues.RingDefs Queues.RingProofs Queues.PcqDefs Queues.PcqProofs.
 
 (* ---------- UnboundedSingleQueue (util/pcqueue.hh:238-300) ---------- *)
@@ -216,6 +217,29 @@ Theorem C16_pcq_blocked_only_without_partner :
       forall i todo, nth_error (q_threads s) i = Some (QProd QPWait todo) -> todo = []).
 Proof. intros n threads s Hn HF. exact (pcq_no_stuck_proof n Hn threads (initial_threads_wf threads HF) s). Qed.
 Print Assumptions C16_pcq_blocked_only_without_partner.
+
+(* in production order per producer: at every moment, under every schedule, what a producer thread has
+   stored so far (in the global store order, which by C16_pcq_fifo is the delivery order) followed by what
+   it still has to store is exactly its program - nothing of one producer is reordered, lost or duplicated *)
+Theorem C16_pcq_per_producer_order :
+  forall n threads s,
+  reachable (pcq_step n) (pcq_init (pcq_empty_init n) (pcq_used_init n) threads) s ->
+  map snd (q_wtlog s) = q_wlog s /\
+  forall i t0 t, nth_error threads i = Some t0 -> nth_error (q_threads s) i = Some t ->
+                 stored_by i s ++ to_store t = to_store t0.
+Proof. intros n threads s. exact (pcq_per_producer_order_proof n threads s). Qed.
+Print Assumptions C16_pcq_per_producer_order.
+
+(* every schedule is finite: each step of any thread decreases the total remaining work
+   (5 steps per Produce/Consume call), whatever the capacity *)
+Theorem C16_pcq_runs_finite :
+  forall n threads ls s,
+  run (pcq_step n) (pcq_init (pcq_empty_init n) (pcq_used_init n) threads) ls = Some s ->
+  length ls <= wsum tw threads.
+Proof.
+  intros n threads ls s H. pose proof (pcq_runs_bounded_proof n ls _ _ H) as G. simpl in G. lia.
+Qed.
+Print Assumptions C16_pcq_runs_finite.
 
 (* non-vacuity: two producers and one consumer on a 1-slot queue; a complete run delivers all three items,
    each producer's items in its own order *)
